@@ -345,6 +345,9 @@ struct Client {
     /// the application supplied a response after this client shut down its read side: the
     /// server has (after fair completion) attempted a write that must have failed
     answered_after_shut_rd: bool,
+    /// this client closed its socket, owes nothing and is owed nothing, and the server has since
+    /// completed a call that handled an event of its connection: the release is due (C10)
+    release_due: bool,
     /// after this client shut down its read side the server handled a writability event for
     /// its connection while output was pending: that write can only have failed
     write_failed_known: bool,
@@ -535,6 +538,7 @@ impl<'a> World<'a> {
                 yielded: 0,
                 supplied: vec![],
                 answered_after_shut_rd: false,
+                release_due: false,
                 write_failed_known: false,
                 consumed_before_poll: 0,
                 last_server_fd: None,
@@ -959,6 +963,8 @@ impl<'a> World<'a> {
             o => o,
         };
         micro_http::verif::set_event_order(code);
+        let owed_before: Vec<bool> = (0..self.clients.len()).map(|i| self.outstanding.iter().any(|o| o.client == i)).collect();
+        let due_before: Vec<RawFd> = (0..self.clients.len()).filter(|i| self.clients[*i].release_due).filter_map(|i| pre_server_fd[i]).filter(|fd| before.iter().any(|e| e.0 == *fd)).collect();
         let r = util::catch(|| self.server.as_mut().unwrap().requests());
         micro_http::verif::set_event_order(0);
         let batch = micro_http::verif::last_batch();
@@ -1057,6 +1063,12 @@ impl<'a> World<'a> {
                     if open_then < 10 && refused_below.is_none() {
                         refused_below = Some((c, open_then));
                     }
+                    // capacity is regained when a connection is due for release: a slot still held
+                    // by a connection whose client left, with nothing owed either way, and whose
+                    // hang-up an EARLIER completed call already handled, does not justify a refusal
+                    if open_then >= 10 && open_then - due_before.len() < 10 && refused_below.is_none() {
+                        refused_below = Some((c, open_then - due_before.len()));
+                    }
                     descs.push(format!("refused client {}", c));
                     traces.push(format!("refused client {}", c));
                     handled += 1;
@@ -1066,6 +1078,15 @@ impl<'a> World<'a> {
             }
             accepted_desc = descs.join(", ");
             accepted_trace = traces.join(", ");
+        }
+        if matches!(&r, Ok(Ok(_))) {
+            for (i, c) in self.clients.iter_mut().enumerate() {
+                if let Some(sfd) = pre_server_fd[i] {
+                    if c.closed && !owed_before[i] && batch.iter().any(|(b, _)| *b == sfd) {
+                        c.release_due = true;
+                    }
+                }
+            }
         }
         for (i, c) in self.clients.iter_mut().enumerate() {
             // (the connection the event belonged to: the one this client had before the call)
@@ -1084,7 +1105,7 @@ impl<'a> World<'a> {
         self.feed_references();
         if let Some((c, n)) = refused_below {
             self.note("Poll", json!({"order": order, "batch": format!("{:?}", batch), "accept": accepted_trace}));
-            return self.fail("refused-below-capacity", format!("client {} was turned away although only {} connections were open when the server handled the listener event", c, n));
+            return self.fail("refused-below-capacity", format!("client {} was turned away although only {} connections were open (not counting connections whose release was due since an earlier call) when the server handled the listener event", c, n));
         }
         let mut yielded_desc = vec![];
         match r {
@@ -1921,6 +1942,18 @@ impl<'a> World<'a> {
                     }
                     Some(_) if c.write_failed_known => {
                         who.push(format!("client {} shut RD and the server has since handled a writability event with output pending (that write failed): must be gone", i));
+                        continue;
+                    }
+                    Some(_) if c.answered_after_shut_rd && c.server_fd.map_or(false, |fd| {
+                        // (only when the socket takes writes at all: with its buffer still full of
+                        // unread output no write is attempted and the server cannot know)
+                        let mut p = libc::pollfd { fd, events: libc::POLLOUT, revents: 0 };
+                        unsafe { libc::poll(&mut p, 1, 0) > 0 && p.revents & (libc::POLLOUT | libc::POLLERR) != 0 }
+                    }) => {
+                        // C09, last sentence: the application supplied an answer after the client
+                        // stopped reading, and polling has settled: the write that delivers it was
+                        // due and can only have failed
+                        who.push(format!("client {} shut RD and the application has supplied an answer since (the socket is writable, so the write that was due can only have failed): must be gone", i));
                         continue;
                     }
                     Some(_) => {
